@@ -596,6 +596,33 @@ func findType(f *ast.File, name string) ast.Expr {
 	return nil
 }
 
+// a type declared by a `type` statement at the top level of the body of function fn
+func findLocalType(f *ast.File, fn, name string) ast.Expr {
+	for _, d := range f.Decls {
+		fd, ok := d.(*ast.FuncDecl)
+		if !ok || fd.Name.Name != fn || fd.Recv != nil || fd.Body == nil {
+			continue
+		}
+		for _, st := range fd.Body.List {
+			ds, ok := st.(*ast.DeclStmt)
+			if !ok {
+				continue
+			}
+			gd, ok := ds.Decl.(*ast.GenDecl)
+			if !ok || gd.Tok != token.TYPE {
+				continue
+			}
+			for _, sp := range gd.Specs {
+				ts := sp.(*ast.TypeSpec)
+				if ts.Name.Name == name && ts.TypeParams == nil {
+					return ts.Type
+				}
+			}
+		}
+	}
+	return nil
+}
+
 type fileLoader func(rel string) *ast.File
 
 // extra imports of generated modules (beside Base/GoRt.lean)
@@ -613,7 +640,7 @@ func translateExt(fset *token.FileSet, load fileLoader, sp spec, known map[strin
 	x := &xtr{fset: fset, sp: sp, env: map[string]*xty{}, structs: map[string]*xstruct{}, consts: map[string]xval{},
 		shared: map[string]bool{}, loops: map[ast.Stmt]*loopInfo{}, ptrParams: map[string]bool{}, params: map[string]bool{}, prims: map[string]bool{},
 		aliases: map[string]*xty{}, known: known, uses: map[string]useSpec{}, opaque: map[string]string{},
-		ordParams: map[string]bool{}, methods: map[string]*xmethod{}, capVars: map[string]string{}, fnBody: fd.Body}
+		ordParams: map[string]bool{}, methods: map[string]*xmethod{}, pkgPrims: map[string]string{}, capVars: map[string]string{}, fnBody: fd.Body}
 	for _, cv := range sp.CapVars {
 		nt := strings.SplitN(cv, "=", 2)
 		if len(nt) != 2 {
@@ -680,6 +707,9 @@ func translateExt(fset *token.FileSet, load fileLoader, sp spec, known map[strin
 	// struct types named by the spec, in order (later ones may use earlier ones)
 	for _, ss := range sp.Structs {
 		te := findType(load(ss.File), ss.Name)
+		if ss.InFunc != "" {
+			te = findLocalType(load(ss.File), ss.InFunc, ss.Name)
+		}
 		if te == nil {
 			fail(token.Position{Filename: ss.File}, "type %s not found", ss.Name)
 		}
@@ -688,7 +718,7 @@ func translateExt(fset *token.FileSet, load fileLoader, sp spec, known map[strin
 			x.aliases[ss.Name] = x.goTy(te)
 			continue
 		}
-		xs := &xstruct{name: ss.Name, caps: map[string]bool{}, drop: map[string]bool{}}
+		xs := &xstruct{name: ss.Name, caps: map[string]bool{}, drop: map[string]bool{}, partial: len(ss.Only) > 0 || len(ss.Caps) > 0}
 		for _, c := range ss.Caps {
 			xs.caps[c] = true
 		}
@@ -787,9 +817,14 @@ func translateExt(fset *token.FileSet, load fileLoader, sp spec, known map[strin
 		if ty.k != kFunc {
 			x.bad(fd, "spec.Prims entry %q is not a function type", p)
 		}
-		x.declare(fd, nt[0], ty)
+		pname := nt[0]
+		if i := strings.LastIndex(pname, "."); i >= 0 { // a function of another package, called as pkg.Name(..)
+			x.pkgPrims[pname] = pname[i+1:]
+			pname = pname[i+1:]
+		}
+		x.declare(fd, pname, ty)
 		x.poly = x.poly || ty.mentionsAny()
-		primBinders = append(primBinders, fmt.Sprintf("(%s : %s)", ident(nt[0]), ty.lean()))
+		primBinders = append(primBinders, fmt.Sprintf("(%s : %s)", ident(pname), ty.lean()))
 	}
 	for _, p := range fd.Type.Params.List {
 		for _, n := range p.Names {
